@@ -20,8 +20,8 @@ Proof.
 Qed.
 
 Lemma process_global_caches_are_exactly :
-  map st_name (filter (fun s => match lookup_state s state_audit with Some (SProcessCache _) => true | _ => false end) state_items)
-  = ["_empty_constrained"%string].
+  map st_name (filter (fun s => match lookup_state s (state_audit ++ state_audit_extra)%list with Some (SProcessCache _) => true | _ => false end) state_items)
+  = ["_empty_constrained"; "directory_has_init"; "get_all_error_codes"; "_get_checker"; "_typing_name_cache"]%string.
 Proof. vm_compute. reflexivity. Qed.
 
 Lemma resolution_cache_key_keeps_what_determines_the_result : resolution_key_ok resolution_key_fields = true.
